@@ -99,6 +99,14 @@ def tags (newest : Nat) (p : Pkg) : String :=
     ++ p.tags.filter (· != "")
   ",".intercalate parts
 
+/-- does a binding name the package (so that the file has to import it) -/
+def refersPkg (e : Entry) : Bool :=
+  match e.form with
+  | .value id => id.pkg != ""
+  | .addr id => id.pkg != ""
+  | .typ id => id.pkg != ""
+  | _ => false
+
 /-- the wrapper file the property demands -/
 def wrapper (provided : List String) (newest : Nat) (p : Pkg) : File :=
   let vals := p.objs.filterMap fun o => (valForm provided p o).map fun f => (⟨o.name, f⟩ : Entry)
@@ -109,7 +117,7 @@ def wrapper (provided : List String) (newest : Nat) (p : Pkg) : File :=
     tags := tags newest p
     imports := (ifs.flatMap fun o => ((methodsOf o.kind).filter (·.exported)).flatMap (methodDeps p))
       ++ (if vals.any (fun e => isLit e.form) then ["go/constant", "go/token"] else [])
-      ++ (if vals.isEmpty && typs.isEmpty then [] else [p.importPath])
+      ++ (if (vals ++ typs).any refersPkg then [p.importPath] else [])   -- an unused import does not compile
       ++ ["reflect"]
     vals := vals
     typs := typs
